@@ -65,11 +65,55 @@ fn gen_handler(rng: &mut Rng, r: &Req) -> Vec<HAct> {
     };
     let body = if rng.chance(1, 2) { 0 } else { rng.range(1, 30) as usize };
     let bpend = if body > 0 { [0, 0, 1, 2][rng.below(4) as usize] } else { 0 };
-    h.push(HAct::Respond { copt, body, bpend });
+    if rng.chance(1, 5) {
+        // the service fails: error response without / with a body (State::SendErrorPayload), the
+        // body stream ready at once or after Pending polls
+        h.push(HAct::Fail { status: 403, body, bpend });
+    } else {
+        h.push(HAct::Respond { copt, body, bpend });
+    }
     h
 }
 
+/// early response to a content-length request whose body is not read; the rest of the body and a
+/// follow-up request arrive LATER, in one read (LINGER / SHUTDOWN must discard or never read them).
+/// Response kinds: Ok / Err, empty / sized body, body stream ready or pending.
+fn gen_early_response(rng: &mut Rng) -> Case {
+    let cfg = Cfg { ka: 5000, req_to: 0, disc_to: *rng.pick(&[0u64, 1000]), half_closed: rng.chance(1, 2), signal: false };
+    let blen = rng.range(2, 30) as usize;
+    let first = rng.range(0, blen as u64 - 1) as usize;
+    let reqs = vec![
+        Req { head: false, v11: true, copt: *rng.pick(&[0u8, 0, 2]), body: 1, blen },
+        Req { head: false, v11: true, copt: 0, body: 0, blen: 0 },
+    ];
+    let body = *rng.pick(&[0usize, 5, 12]);
+    let bpend = if body > 0 { *rng.pick(&[0u32, 0, 1]) } else { 0 };
+    let mut h0 = vec![];
+    if rng.chance(1, 3) {
+        h0.push(HAct::Drop);
+    }
+    h0.push(if rng.chance(1, 2) { HAct::Fail { status: 403, body, bpend } } else { HAct::Respond { copt: 0, body, bpend } });
+    let hs = vec![h0, vec![HAct::Respond { copt: 0, body: 6, bpend: 0 }]];
+    let mk = |adv: u64, arrive: Vec<Item>| Round { adv, arrive, rd: 0, wblock: false, sd: 0, signal: false };
+    let mut r0 = vec![Item::Req { i: 0 }];
+    if first > 0 {
+        r0.push(Item::Data { n: first });
+    }
+    let mut rounds = vec![mk(0, r0)];
+    if rng.chance(1, 2) {
+        rounds.push(mk(3, vec![]));
+    }
+    rounds.push(mk(3, vec![Item::Data { n: blen - first }, Item::End, Item::Req { i: 1 }]));
+    rounds.push(mk(3, vec![]));
+    rounds.push(mk(1201, vec![]));
+    rounds.push(mk(3, vec![]));
+    Case { cfg, reqs, hs, rounds }
+}
+
 fn gen_case(rng: &mut Rng) -> (Case, bool) {
+    if rng.chance(1, 12) {
+        return (gen_early_response(rng), false);
+    }
     let malformed = rng.chance(20, 100);
     let cfg = Cfg {
         ka: *rng.pick(&[5000, 5000, 5000, 5000, 0, 0, -1, 1000]),
@@ -203,7 +247,7 @@ fn emit_case(em: &mut Emitter, id: String, c: Case, fx: Fixes, extra_tags: Vec<S
     }
     for h in &c.hs {
         for a in h {
-            tags.push(format!("h:{}", match a { HAct::Pend => "pend", HAct::Read => "read", HAct::ReadAll => "readall", HAct::Drop => "drop", HAct::Until { .. } => "until", HAct::Respond { .. } => "respond" }));
+            tags.push(format!("h:{}", match a { HAct::Pend => "pend", HAct::Read => "read", HAct::ReadAll => "readall", HAct::Drop => "drop", HAct::Until { .. } => "until", HAct::Respond { .. } => "respond", HAct::Fail { body: 0, .. } => "fail-empty", HAct::Fail { .. } => "fail-body" }));
         }
     }
     if c.rounds.iter().any(|r| r.arrive.iter().any(|i| matches!(i, Item::Bad))) {
